@@ -69,13 +69,17 @@ MUTATIONS = [
     [("option.line", "ack")], [("option.line", "log")], [("sequence", 7)],
     [("line", "permit ip any any")], [("line", "deny tcp any any eq 80")],
     [("srcaddr.line", "host 10.0.0.1"), ("dstport.ports", [80])],
+    # queries whose RESULT the caller edits: the entry itself must not change
+    [("call_edit", "srcaddr.ipnets")], [("call_edit", "dstaddr.ipnets")], [("call_edit", "srcaddr.prefixes")],
+    [("call_edit", "dstport.ports")], [("call_edit", "srcport.items")], [("call_edit", "dstaddr.items")],
 ]
 MUT_PARTNERS = ["permit tcp any any", "permit ip any any", "permit tcp 10.0.0.0 0.255.255.255 any",
                 "permit tcp host 10.0.0.1 any eq 80", "permit tcp host 10.0.0.2 any range 20 80",
                 "permit tcp any any range 20 80", "permit tcp any any eq 20 21 80", "permit tcp any any eq 443",
                 "permit tcp host 10.0.0.5 any gt 1000", "permit tcp any any ack",
                 "permit udp any any", "permit udp 10.0.0.0 0.0.0.3 gt 1000 10.2.3.0 0.0.0.255",
-                "permit udp any eq 5 6 any", "deny tcp any any eq 80", "permit udp host 10.0.0.1 gt 2000 host 10.0.0.9"]
+                "permit udp any eq 5 6 any", "deny tcp any any eq 80", "permit udp host 10.0.0.1 gt 2000 host 10.0.0.9",
+                "permit udp 10.0.0.0 0.0.0.3 any", "permit udp 10.0.1.0 0.0.0.3 any"]
 
 
 def _mutate(bi, mi):
@@ -96,6 +100,16 @@ def _mutate(bi, mi):
             # a Port born from an empty expression carries no protocol and never renders (a quirk
             # pinned by the repository's tests, see C08): giving it ports later is out of domain
             raise ValueError("empty port expression")
+        if path == "call_edit":
+            tgt = ace
+            *hs, meth = val.split(".")
+            for h in hs:
+                tgt = getattr(tgt, h)
+            res = getattr(tgt, meth)
+            res = res() if callable(res) else res
+            if isinstance(res, list) and len(res) > 1:
+                res.pop()
+            continue
         setattr(obj, last, list(val) if isinstance(val, list) else val)
     mem = {}
     for side in ("src", "dst"):
